@@ -297,8 +297,22 @@ CHECKS.append({
             "F30 (negative c:axId), F31 (c:smooth in radar series), F25b (add_movie after p:extLst) repaired by fix: commits.",
 })
 
+CHECKS.append({
+    "property_id": "C07",
+    "technique": "contract-based deductive verification (pyvc: loop invariant over a ghost text accumulator for the c:pt writer, generator summarisation for the values reader, rewriter counting and idx/order freshness; z3) + bounded native chart round trips validated against dml-chart.xsd",
+    "category": "proof",
+    "text": "_BaseSeriesXmlWriter.pt_xml for any number of values with any of them missing: the text is the c:ptCount piece carrying len(values) followed by exactly one c:pt piece per non-None value, in order, "
+            "with that value's own index and value (rank function RANK as ghost). series.values: exactly ptCount entries, entry k the value of the c:pt with idx k, None when absent; CT_NumDataSource.pt_v / "
+            "ptCount_val over the xpath contract. Rewriter: _adjust_ser_count adds/trims exactly the difference; _add_cloned_sers gives each clone the idx and order offered by next_idx / next_order at that "
+            "moment and chains clones after their source; CT_PlotArea.next_idx / next_order exceed every existing value (so ids stay unique).",
+    "note": "Composition of writer and reader contracts assumes the XML text <-> element correspondence (lxml). The chart templates of the 29 writable types, categories of every shape (strings, numbers, dates "
+            "either side of 1900-03-01, 2- and ragged 3-level), missing values, replace_data with a different shape, formatting of surviving series, corpus charts: bounded C07.native_charts job only "
+            "(never counted as proved). _add_cloned_sers is unrolled for count <= 3. Known finding F33: PIE / PIE_EXPLODED write only the first series supplied. F32 (blank category label read as 'None') repaired by a fix: commit; "
+            "F30/F31 (axis ids, radar c:smooth) are recorded under C03.",
+})
+
 NOT_APPLICABLE = [
     {"property_id": p, "reason": _PENDING}
-    for p in ["C07",
+    for p in [
               ]
 ]
